@@ -78,6 +78,19 @@ CHECKS = {
         note='LRU bound observed through blocks (all-or-nothing); 5 model keys differing in one argument each + order variants; '
              'bool-vs-int flags and attribute-level access to the internal mapping objects are not gated.',
         technique='TLA+ LRU state machine, TLC BFS + simulation behaviours replayed step-by-step into the real cache with cache_info() as state projection'),
+    'C14': dict(
+        category='model_checking',
+        text='Threads.tla models N threads x scripts of compile calls with pre-emption points around the special-pseudo-class '
+             'dispatcher (the point structure of each pattern is extracted from the working tree by a dry run at check time) and the '
+             'shared cache; TLC checks T-Serial over ALL interleavings for the per-call placement and refutes the shared-slot '
+             'placement (negative model). Every behaviour TLC enumerates is replayed deterministically: a sys.settrace controller '
+             'parks real threads at exactly those points and releases them in the behaviour\'s order; each call must return its '
+             'single-threaded value and the cache must hold fresh parses. In addition one thread is pre-empted at Python line events '
+             '(compile, select, match, filter pairs) by a second thread running to completion.',
+        design_ref='§6 C14',
+        note='2 threads x 1-2 calls (quick), 3 threads / 2 calls with bounded switches (thorough); line-level pre-emption with one '
+             'pre-emption; races inside a single bytecode or inside C code (lru_cache, re) cannot be forced from Python.',
+        technique='TLA+ interleaving model checked by TLC (positive + negative placement); every TLC behaviour replayed as a forced thread schedule on the real code'),
 }
 
 PENDING = {}
